@@ -266,6 +266,8 @@ func judgeOp(s *stats, c *opCase) verdict {
 				// when the operator was built (the other voters refuse leaders too, or are being removed). Nothing
 				// gets worse than it was; the statement does not say whether this counts as "moving a leader to".
 				s.count("skipped_ambiguous_leader_handed_back_to_its_refusing_origin_store", 1)
+			} else if why == "" && c.W.rejectsAmbiguously(sd) {
+				s.count("skipped_ambiguous_leader_to_store_matching_a_reject_property_only_ignoring_case", 1)
 			} else if why != "" {
 				// not blocking: the store executes the transfer, the replay goes on
 				detail := why
